@@ -16,7 +16,7 @@ EXIT_OK, EXIT_VIOLATION, EXIT_UNDECIDED, EXIT_CRASH = 0, 1, 2, 3
 
 class Obligation:
     def __init__(self, oid, fn, sorts, order=None, funcs=(), tier="quick", axioms=(), lemmas=(), bounded=None,
-                 numeric=True, sizes=None, note=""):
+                 numeric=True, sizes=None, note="", only_clauses=None, skip_clauses=None):
         self.id = oid
         self.fn = fn
         self.sorts = list(sorts)
@@ -29,18 +29,43 @@ class Obligation:
         self.numeric = numeric
         self.sizes = sizes
         self.note = note
+        self.only_clauses = list(only_clauses) if only_clauses else None
+        self.skip_clauses = list(skip_clauses or [])
+
+    def keeps(self, clause):
+        if clause == "<no-raise>":
+            return True
+        if self.only_clauses is not None and not any(fnmatch.fnmatchcase(clause, p) for p in self.only_clauses):
+            return False
+        return not any(fnmatch.fnmatchcase(clause, p) for p in self.skip_clauses)
 
 
 class Registry:
-    def __init__(self, prop):
+    def __init__(self, prop, skip_clauses=None, only_clauses=None):
         self.prop = prop
         self.obs = []
+        self.skip_clauses = list(skip_clauses or [])
+        self.only_clauses = only_clauses
 
     def ob(self, oid, sorts, **kw):
         def deco(fn):
+            kw.setdefault("skip_clauses", self.skip_clauses)
+            kw.setdefault("only_clauses", self.only_clauses)
             self.obs.append(Obligation(f"{self.prop}/{oid}", fn, sorts, **kw))
             return fn
         return deco
+
+    def include(self, other_reg, only_clauses=None, skip_clauses=None, match=None, tier=None, prefix=None):
+        """re-use the obligations of another property's registry, keeping only some of their clauses"""
+        for o in other_reg.obs:
+            if match and not fnmatch.fnmatchcase(o.id, match):
+                continue
+            tail = o.id.split("/", 1)[1]
+            self.obs.append(Obligation(f"{self.prop}/{prefix or other_reg.prop}:{tail}", o.fn, o.sorts, order=o.order, funcs=o.funcs,
+                                       tier=tier or o.tier, axioms=o.axioms, lemmas=o.lemmas, bounded=o.bounded,
+                                       numeric=o.numeric, sizes=o.sizes, note=o.note,
+                                       only_clauses=only_clauses if only_clauses is not None else o.only_clauses,
+                                       skip_clauses=(skip_clauses or []) + o.skip_clauses))
 
 
 # ------------------------------------------------------------------ size assignments for the numeric world
@@ -143,6 +168,7 @@ def _worker(args):
         mod = importlib.import_module(modname)
         ob = [o for o in mod.REG.obs if o.id == oid][0]
         sym = run_symbolic(ob)
+        sym["clauses"] = [c for c in sym["clauses"] if ob.keeps(c["clause"])]
         failed = [c for c in sym["clauses"] if not c["ok"]]
         res = dict(id=oid, sym=sym, num=[], funcs=ob.funcs, axioms=ob.axioms, lemmas=ob.lemmas, bounded=ob.bounded,
                    note=ob.note)
@@ -152,7 +178,9 @@ def _worker(args):
         if want_numeric and ob.numeric:
             nvar = 1 if (sym_ok and tier == "quick") else (3 if sym_ok else 4)
         for sizes in size_assignments(ob, nvar, seed):
-            res["num"].append(run_numeric(ob, sizes, seed))
+            nr = run_numeric(ob, sizes, seed)
+            nr["clauses"] = [c for c in nr["clauses"] if ob.keeps(c["clause"])]
+            res["num"].append(nr)
         return res
     except Exception as ex:  # noqa
         return dict(id=oid, crash=f"{type(ex).__name__}: {ex}\n{traceback.format_exc()}")
